@@ -16,7 +16,7 @@ func runCLICheck(spec CheckSpec, tier string, seed int64, verifDir string, start
 	}
 	defer os.RemoveAll(scratch)
 	bin := filepath.Join(scratch, "fundraisingd")
-	if err := buildDefaultBinary("/repo", bin, ""); err != nil {
+	if err := buildDefaultBinary(repoDir(), bin, ""); err != nil {
 		fmt.Println("BUILD FAILED:", err)
 		return 2
 	}
